@@ -223,7 +223,7 @@ let parse_wcmd (toks : string list) : wcmd =
   | ["errloc"] -> WErrLoc
   | _ -> WBase (parse_cmd toks)
 
-let cwd = ref ""      (* token of the last chdir ("" = the root of the tree) *)
+let cwd = ref []      (* directory of the last chdir ([] = the root of the tree) *)
 
 let () =
   let ic = if Array.length Sys.argv > 1 then open_in Sys.argv.(1) else stdin in
@@ -232,7 +232,7 @@ let () =
     while true do
       let line = input_line ic in
       if line = "" || line.[0] = '#' then ()
-      else if line = "reset" then (w := world0; cwd := ""; print_endline "reset")
+      else if line = "reset" then (w := world0; cwd := []; print_endline "reset")
       else begin
         let toks = String.split_on_char ' ' line in
         match toks with
@@ -254,15 +254,12 @@ let () =
             let rc = (try Scanf.sscanf txt "rc=%d" (fun d -> d) with _ -> -1) in
             if rc = 1 || rc = 2 || rc = 4 || rc = 5 || rc = 6 || rc < 0 then print_endline (if rc < 0 then txt else Printf.sprintf "rc=%d" rc)
             else print_endline "rc=22"
-        | ["chdir"; d] -> cwd := d; print_endline "rc=0"
-        | ["readfile"; a; p; dl; cm] when !cwd <> "" && String.length p > 1 && p.[0] = 'x' && not (String.length p >= 3 && String.sub p 1 2 = "2f")
-                                          && String.length !cwd > 3 && dl <> "-" && cm <> "-" ->
-            (* a relative name after the process has moved: the model's working directory is the root of the tree, so the
-               name is spelled relative to the root (<cwd without its leading '/'>/<name>) and goes through the model's
-               realpath route as every relative name does *)
-            let c = !cwd in
-            let p' = "x" ^ String.sub c 3 (String.length c - 3) ^ "2f" ^ String.sub p 1 (String.length p - 1) in
-            let (w', r) = wstep !w (parse_wcmd ["readfile"; a; p'; dl; cm]) in
+        | ["chdir"; d] -> cwd := dec d; print_endline "rc=0"
+        | ["readfile"; a; p; dl; cm] when !cwd <> [] && p <> "-" && dl <> "-" && cm <> "-" ->
+            (* a name given after the process has moved: the model's working directory is the root of the tree, so a
+               relative name is re-spelled relative to the root by the extracted CwdModel.respell (theorems
+               C13_respell_*: still relative, absolute names untouched, resolves to cwd/name) *)
+            let (w', r) = wstep !w (WReadFile (nat_of_int (int_of_string a), respell !cwd (dec p), dec dl, dec cm)) in
             w := w'; print_endline (show_wout r)
         | ["cbnest"; _; _; _; _] -> print_endline "rc=0"
         | ["readfile"; _; p; dl; cm] when p = "-" || dl = "-" || cm = "-" ->
